@@ -426,7 +426,7 @@ pub fn scenario(name: &str, params: &Value) -> Scenario {
                 e.push(Ev::Deliver(inbound(1, false, 60, &[], "plain")));
                 // end-of-stream in the middle of a packet
                 e.push(Ev::PartialThenEof(inbound(0, false, 0, &[], "cut-short"), 3));
-                if !s.m.write_err {
+                if s.write_err_allowed() {
                     e.push(Ev::WriteErr);
                 }
                 if s.m.master_alive {
